@@ -10,8 +10,8 @@
    The complement ("known bad") is explicit: [safe] (operator instances, Model/C01Safe.v) and [pos_ok] / [clean]
    (a None value tested for truth below a `not`); every disjunct has a refutation in Findings/C01.v / Findings/C02.v. *)
 Require Import PonyV.Base.PyBase PonyV.Model.C01Expr PonyV.Model.C01Sql PonyV.Model.C01Translate PonyV.Model.C01Safe
-               PonyV.Model.C01Eqb PonyV.Model.C01Query PonyV.Model.C01Like PonyV.Model.C01LikeEqb PonyV.Model.C01Join PonyV.Model.C01Coll PonyV.Model.C01Aggr
-               PonyV.Proofs.C01Ref PonyV.Proofs.C01Sound PonyV.Proofs.C01Rows PonyV.Proofs.C01Like PonyV.Proofs.C01Join PonyV.Proofs.C01Coll PonyV.Proofs.C01Aggr.
+               PonyV.Model.C01Eqb PonyV.Model.C01Query PonyV.Model.C01Like PonyV.Model.C01LikeEqb PonyV.Model.C01Join PonyV.Model.C01Coll PonyV.Model.C01Aggr PonyV.Model.C01Len
+               PonyV.Proofs.C01Ref PonyV.Proofs.C01Sound PonyV.Proofs.C01Rows PonyV.Proofs.C01Like PonyV.Proofs.C01Join PonyV.Proofs.C01Coll PonyV.Proofs.C01Aggr PonyV.Proofs.C01Len.
 
 (* WHERE keeps exactly the rows the Python condition keeps *)
 Theorem C01_filter_except_known : forall d, modelled d = true ->
@@ -190,6 +190,41 @@ Example C01_collection_nonvacuous :
   | _, _ => False
   end /\ py_coll_rows (fun _ => PNone) db false atoms proj = [PInt 1].
 Proof. vm_compute. repeat split; reflexivity. Qed.
+
+(* len(g.members) / count(g.members) in a condition (Model/C01Len.v): the translator's "optimize" path -
+   SELECT .. FROM G g LEFT JOIN P p ON g.id = p.group WHERE <w> GROUP BY g.id HAVING <h>, the conditions h mentioning
+   COUNT(DISTINCT p.id).  [sql_len_rows]: LEFT JOIN rows, WHERE per joined row, groups by the value of g.id, COUNT(DISTINCT)
+   per group, HAVING per group; [py_len_rows]: the comprehension with len = the number of P objects whose group is g.
+   ws: conditions over g's own columns; hs: conditions that mention the count and keep the translator's `aggregated` mark
+   (conditions proper, or string values tested for truth).  Known bad ([tr_len] = None: the statement has the aggregate
+   in WHERE and every database rejects it): a numeric value tested for truth, `if len(g.members)`, `if coalesce(g.level,
+   count(g.members))` - finding aggregate-truth-test-lands-in-where. *)
+Theorem C01_collection_len_rows_except_known : forall d, modelled d = true ->
+  forall params db, pk_ok (tP db) = true -> keys_ok (map (fun g : row => g 0%nat) (tG db)) = true ->
+  forall ws hs proj vt w h q,
+  forallb boolty (ws ++ hs) = true -> forallb g_only ws = true -> forallb (fun e => negb (loses_mark e)) hs = true ->
+  ty_of proj = Some (TV vt) ->
+  tr_len d ws hs = Some (sub_join, w, h) -> tr_project d proj = Some q ->
+  Forall (len_ok d params db ws hs proj) (tG db) ->
+  sql_len_rows d params db w h q = map (enc d) (py_len_rows params db ws hs proj) /\
+  map (dec (TV vt)) (sql_len_rows d params db w h q) = py_len_rows params db ws hs proj.
+Proof. exact len_rows. Qed.
+Print Assumptions C01_collection_len_rows_except_known.
+
+(* non-vacuity: groups with 2 / 1 / 0 members, `g.number >= 0 and len(g.members) > g.level` *)
+Example C01_collection_len_nonvacuous :
+  let number := mkattr 11 TInt false in let level := mkattr 14 TInt true in let cnt := mkattr 30 TInt false in
+  let ws := [ECmp CGe (EAttr number) (EInt 0)] in let hs := [ECmp CGt (EAttr cnt) (EAttr level)] in
+  let proj := EAttr (mkattr 10 TInt false) in
+  let mk (id : Z) (grp : pyv) := row_of [(0, PInt id); (8, grp); (3, PInt 0); (5, PStr [97%Z]); (7, PBool true)]%nat in
+  let db := mkjdb [mk 1 (PInt 1); mk 2 (PInt 1); mk 3 (PInt 2)]
+                  [row_of [(0, PInt 1); (1, PInt 2); (4, PInt 1)]%nat; row_of [(0, PInt 2); (1, PInt 0); (4, PInt 1)]%nat;
+                   row_of [(0, PInt 3); (1, PInt 5); (4, PInt (-1))]%nat] [] in
+  match tr_len DSqlite ws hs, tr_project DSqlite proj with
+  | Some (_, w, h), Some q => sql_len_rows DSqlite (fun _ => PNone) db w h q = [IntV 1; IntV 3]
+  | _, _ => False
+  end /\ py_len_rows (fun _ => PNone) db ws hs proj = [PInt 1; PInt 3].
+Proof. vm_compute. split; reflexivity. Qed.
 
 (* ---------------------------------------------------------------------------------------------------------------
    An aggregate as the whole result, without GROUP BY (Model/C01Aggr.v): select(count() | count(p) | count(e) | sum(e) |
